@@ -161,7 +161,8 @@ def h_http(nargs, variant, backslash=False, focus="arg1"):
             want_par = [(b"k", b"v")]
         else:
             get = [("BUILD", "metadata"), ("NETBIOSU", True), ("BASE64URL", True), ("PARAMETER", a1)]
-            post = [("_HEADER", SymBytes(list(b"X-T: ") + hv.cells)), ("BUILD", "id"), ("PREPEND", a2), ("HEADER", b"X-Id"), ("BUILD", "output"), ("BASE64", True), ("APPEND", a3), ("URI_APPEND", True)]
+            post = [("_HEADER", SymBytes(list(b"X-T: ") + hv.cells)), ("_HEADER", b"X-T: second"), ("_HOSTHEADER", b"Host: h.example"), ("BUILD", "id"), ("PREPEND", a2),
+                    ("HEADER", b"X-Id"), ("BUILD", "output"), ("BASE64", True), ("APPEND", a3), ("URI_APPEND", True)]
             recover = [("print", True), ("mask", True), ("netbios", True)]
             want_meta = ["netbiosu", "base64url", ("parameter", a1)]
             want_id = [("prepend", a2), ("header", b"X-Id")]
@@ -190,7 +191,11 @@ def h_http(nargs, variant, backslash=False, focus="arg1"):
             ctx.prove(len(ppairs) == 1 and tuple(ppairs[0]) == ("k", "v"), "static http-post parameter stated (%r)" % (ppairs,))
         else:
             pairs = d.get("http-post.client.header") or []
-            ctx.prove(len(pairs) == 1 and ML.text_of(pairs[0][0]) == "X-T", "static http-post header stated")
+            names = [ML.text_of(p_[0]) for p_ in pairs]
+            ctx.prove(names == ["X-T", "X-T", "Host"], "static http-post headers stated, repeated names kept, in order (got %r)" % (names,))
+            if names == ["X-T", "X-T", "Host"]:
+                ctx.prove(deep_eq(dec(pairs[0][1]), as_bytes(hv)) and ML.text_of(pairs[1][1]) == "second" and ML.text_of(pairs[2][1]) == "h.example",
+                          "static http-post header values stated")
         # server output: kinds and argument lengths of the recover program (order deliberately not asserted)
         so = d.get("http-get.server.output") or []
         kinds = sorted((x if isinstance(x, str) else x[0], 0 if isinstance(x, str) else len(as_bytes(x[1]).cells)) for x in so)
